@@ -12,6 +12,8 @@ interleaving, every job tree and any number of workers.
   * `proto_deleted_exactly_once`  along every run each step is destroyed at most once, and
                                   exactly once when the pool is quiescent
   * `proto_orig_D24*`, `proto_orig_loop_uaf`   the code as it was found reaches a use-after-free
+  * `proto_ranking`, `proto_progress`, `proto_reaches_quiescent`, `proto_terminates`   termination: a ranking
+                                  function decreases with every step that does not create a sub-step
 
 Part 2: the functional layer (Model/C04Key, C04Classify, C04Sort).
   * `key_*`                       the 64-bit key helper functions: key order is string order,
@@ -28,6 +30,7 @@ Part 2: the functional layer (Model/C04Key, C04Classify, C04Sort).
   * OPEN: termination of the recursion (`sortAll_terminates_statement`)
 -/
 import TlxVerif.Proofs.C04ProtoInv
+import TlxVerif.Proofs.C04Term
 import TlxVerif.Proofs.C04Str
 import TlxVerif.Proofs.C04Assemble
 import TlxVerif.Proofs.C04Step
@@ -400,6 +403,37 @@ def fixedDemo : List (Nat × Choice) :=
 example : (run Cfg.fixed (init .big 1) fixedDemo).map
     (fun s => (s.err, s.tasks.all List.isEmpty, s.objs.map (·.alive))) = some (none, true, [false, false]) := by
   decide
+
+/-! ### termination of the protocol -/
+
+/-- **Ranking function.**  `phi` (pending instructions weighted by everything they can still put in
+front of their task or into the queue, plus 4 for every live step that has not started
+`substep_all_done`) strictly decreases with every transition of the fixed system except the `spawn`
+choice of the bucket / work-sharing loop, i.e. except when the job tree grows by one sub-step. -/
+theorem proto_ranking {s s' : State} (hr : Reachable Cfg.fixed s) (h : StepL Cfg.fixed false s s') :
+    phi s' < phi s := phi_decreases (inv_reachable hr) h
+
+/-- **Progress**: a reachable state that is not quiescent can always move without creating a sub-step
+(no transition of the step protocol blocks; waiting on the pool's condition variables is C10). -/
+theorem proto_progress {s : State} (hr : Reachable Cfg.fixed s) (hq : ¬ s.quiescent) :
+    ∃ s', StepL Cfg.fixed false s s' := progress (inv_reachable hr) hq
+
+/-- at most `phi s` transitions are possible without creating a sub-step … -/
+theorem proto_work_bounded {n : Nat} {s s' : State} (hr : Reachable Cfg.fixed s) (h : WorkSteps n s s') :
+    n ≤ phi s := by have := workSteps_bounded h hr; omega
+
+/-- … finishing the pending work leads to the quiescent state (where, by
+`proto_quiescent_all_deleted`, every step has been deleted) … -/
+theorem proto_reaches_quiescent {s : State} (hr : Reachable Cfg.fixed s) :
+    ∃ n s', WorkSteps n s s' ∧ s'.quiescent := reaches_quiescent hr
+
+/-- … and **every run with a finite job tree terminates**: an infinite run of the fixed system creates
+sub-steps infinitely often. -/
+theorem proto_terminates (f : Nat → State) (h0 : Reachable Cfg.fixed (f 0))
+    (hstep : ∀ n, ∃ b, StepL Cfg.fixed b (f n) (f (n + 1))) :
+    ∀ n, ∃ m, n ≤ m ∧ StepL Cfg.fixed true (f m) (f (m + 1)) := infinite_run_spawns f h0 hstep
+
+example : phi (init .big 2) = 50 := by decide
 
 /-! ## Part 2: functional layer -/
 
